@@ -419,29 +419,29 @@ func entryOp(o Op) bool {
 	return false
 }
 
-func runHistory(c *rig.Ctx, cs Case, m mode) bool {
-	ok := true
+func runHistory(c *rig.Ctx, cs Case, m mode) int {
+	var v verdict
 	fail := func(kind, class, what string, at int, impl, model interface{}) {
-		if ok && m.record {
+		if v.sev == pass && m.record {
 			cut := cs
 			if at >= 0 && at+1 < len(cs.Ops) {
 				cut.Ops = cs.Ops[:at+1]
 			}
 			c.Fail(rig.Failure{Kind: kind, Class: class, What: what, Case: cut, Impl: impl, Model: model})
 		}
-		ok = false
+		v.note(kind)
 	}
 	if uint32(cs.N) == 0 {
 		// every entry point panics at its first statement: covered by the shard stream
 		fail("diff", "c13.bad-case", "history with a shard count whose uint32 is 0", -1, nil, nil)
-		return false
+		return v.sev
 	}
 	me := rig.UnHex(cs.Me)
 	pool := histPool(cs)
 	e, err := newEnv(me, int(cs.N), cs.StoreType, unhexAll(cs.Lister))
 	if err != nil {
 		fail("diff", "c13.harness", "cannot build a rate limiter: "+err.Error(), -1, nil, nil)
-		return false
+		return v.sev
 	}
 	steps := make([]implStep, len(cs.Ops))
 	snaps := make([]snapshot, len(cs.Ops))
@@ -455,7 +455,7 @@ func runHistory(c *rig.Ctx, cs Case, m mode) bool {
 		before = after
 		if steps[i].panicMsg != "" {
 			fail("judge", "c13.panic", fmt.Sprintf("op %d %s panicked: %s", i, rig.Canon(o), steps[i].panicMsg), i, steps[i].panicMsg, nil)
-			return false
+			return v.sev
 		}
 	}
 	var mod struct {
@@ -476,13 +476,14 @@ func runHistory(c *rig.Ctx, cs Case, m mode) bool {
 	req := map[string]interface{}{"me": cs.Me, "n": cs.N, "storeType": cs.StoreType, "lister": emptyIfNil(cs.Lister), "ops": cs.Ops, "impl": steps}
 	if err := c.Model("C13.history", req, &mod); err != nil {
 		fail("diff", "c13.model-error", "model error "+err.Error(), -1, nil, nil)
-		return false
+		return v.sev
 	}
 	if len(mod.Steps) != len(cs.Ops) {
 		fail("diff", "c13.model-error", "model answered another number of steps", -1, nil, nil)
-		return false
+		return v.sev
 	}
 	served, refused := 0, 0
+	// first pass: the property itself (spec + the implementation's own behaviour; independent of the model's state)
 	for i, o := range cs.Ops {
 		ms := mod.Steps[i]
 		is := steps[i]
@@ -505,7 +506,7 @@ func runHistory(c *rig.Ctx, cs Case, m mode) bool {
 				served++
 			}
 		}
-		// judge (the property), on the implementation's own behaviour; an empty identity makes "leader" meaningless
+		// an empty identity makes "leader" meaningless (see notes): no judgement then
 		if me != "" && ms.JudgeImpl != nil && !*ms.JudgeImpl {
 			class, what := "c13.guard."+o.Op, ""
 			switch o.Op {
@@ -527,11 +528,19 @@ func runHistory(c *rig.Ctx, cs Case, m mode) bool {
 			fail("judge", class, fmt.Sprintf("op %d: %s", i, what), i, map[string]interface{}{"reply": is.reply, "unchanged": is.Unchanged, "stores": is.StoresAfter}, mr)
 			break
 		}
+	}
+	// second pass: correspondence with the model
+	for i, o := range cs.Ops {
+		if v.sev != pass {
+			break
+		}
+		ms := mod.Steps[i]
+		is := steps[i]
+		mr := modelReply(ms.Reply, o.Op)
 		if !ms.JudgeModel && me != "" {
 			fail("diff", "c13.model-judge", fmt.Sprintf("op %d: the model's own step does not satisfy the judge", i), i, nil, ms.Reply)
 			break
 		}
-		// diff
 		if is.reply != mr {
 			fail("diff", "c13.reply."+o.Op, fmt.Sprintf("op %d %s: model answers %s, code %s", i, rig.Canon(o), mr, is.reply), i, is.reply, mr)
 			break
@@ -561,7 +570,7 @@ func runHistory(c *rig.Ctx, cs Case, m mode) bool {
 			return map[string]interface{}{"me": cs.Me, "n": cs.N, "ops": len(cs.Ops), "served": served, "refused": refused, "first_ops": cs.Ops[:min(4, len(cs.Ops))]}
 		})
 	}
-	return ok
+	return v.sev
 }
 
 func emptyEPs(l []EP) []EP {
